@@ -68,6 +68,7 @@ import (
 	"errors"
 	"fmt"
 	"math"
+	"math/big"
 	"regexp"
 	"strconv"
 	"strings"
@@ -485,6 +486,42 @@ func NewInteger(integer string) *IntegerNode {
 		literal: integer,
 		parsed:  strconv.FormatInt(val, 10),
 	}}
+}
+
+// NewNumber returns the node for the numeric literal num: an IntegerNode when
+// integer is true and the value fits in an int64, otherwise a NumericNode.
+// Unlike [NewInteger] and [NewNumeric] it returns an error, rather than
+// panicking, when num cannot be represented.
+func NewNumber(num string, integer bool) (Node, error) {
+	if integer {
+		_, err := strconv.ParseInt(num, 0, 64)
+		if err == nil {
+			return NewInteger(num), nil
+		}
+		if !errors.Is(err, strconv.ErrRange) {
+			return nil, fmt.Errorf("invalid integer literal %q", num) //nolint:err113
+		}
+
+		// Too big for an int64: keep the value as a numeric.
+		val, ok := new(big.Int).SetString(num, 0)
+		if !ok {
+			return nil, fmt.Errorf("invalid integer literal %q", num) //nolint:err113
+		}
+		num = val.String()
+	}
+
+	if _, err := strconv.ParseFloat(num, 64); err != nil {
+		return nil, fmt.Errorf("numeric literal %q is out of range", num) //nolint:err113
+	}
+	return NewNumeric(num), nil
+}
+
+// negateLiteral returns the numeric literal lit with its sign flipped.
+func negateLiteral(lit string) string {
+	if strings.HasPrefix(lit, "-") {
+		return lit[1:]
+	}
+	return "-" + lit
 }
 
 // Int returns the integer corresponding to n.
@@ -1028,7 +1065,7 @@ func NewUnaryOrNumber(op UnaryOperator, node Node) Node {
 				return node
 			case UnaryMinus:
 				// Just a negative number, return it with the minus sign.
-				return NewNumeric("-" + node.literal)
+				return NewNumeric(negateLiteral(node.literal))
 			default:
 				panic(fmt.Sprintf("Operator must be + or - but is %v", op))
 			}
@@ -1038,8 +1075,11 @@ func NewUnaryOrNumber(op UnaryOperator, node Node) Node {
 				// Just a positive number, return it.
 				return node
 			case UnaryMinus:
-				// Just a negative number, return it with the minus sign.
-				return NewInteger("-" + node.literal)
+				// Just a negative number, return it with the minus sign
+				// (-(-9223372036854775808) is numeric, not integer).
+				if num, err := NewNumber(negateLiteral(node.literal), true); err == nil {
+					return num
+				}
 			default:
 				panic(fmt.Sprintf("Operator must be + or - but is %v", op))
 			}
